@@ -13,6 +13,7 @@ def check(cx):
         'R15.2 re-key census: for every nick-keyed live container of the state (from the struct definitions) the branch contains a re-key old->new: the registry (the same User value: modes, away, invitations, channel set move with it), every channel of the user (member entry + five rank sets), the WALLOPS set; plus WHOWAS record, connection nick and the user\'s source string',
         'R15.3 the original NICK message is sent, attributed to the old source captured before the rename, to a superset of the channel neighbours (all registered users, the user itself included)',
         'R15.4 counters are untouched by a nick change',
+        "R15.5 (imported) the Channel/ChannelModes re-key helpers move every rank entry (C04 R4.3/R4.4) and the connection's nick and source string follow (C02 R2.5, C01 R1.8)",
     ]
     ck.does_not_decide += ['syntactic validity beyond the validator the parser applies to NICK (C13 R13.4)', 'WHOWAS ordering']
     prog = cx.prog
@@ -118,6 +119,14 @@ def check(cx):
                 continue
             r2.violation('process_nick|moved-user-altered|%s' % show_term(tgt)[-40:], 'the user record is changed while it is moved to the new '
                          'nick: %s' % show_term(tgt), loc=cx.loc(e.node))
+
+    # ---------------------------------------------------------------- R15.5 imported
+    r5 = cx.rule('R15.5', 're-key helpers and identity strings (imported)', floor=3, kind='dependency')
+    depends(cx, r5, 'C04', ('R4.3', 'R4.4'), 'Channel::rename_user / ChannelModes::rename_user move the member entry and every rank entry',
+            only=r'rename')
+    depends(cx, r5, 'C02', ('R2.5',), 'set_nick stores the new nick verbatim')
+    depends(cx, r5, 'C01', ('R1.8',), 'the source string is recomputed from the new nick',
+            only=r'set_nick|update_source|update_nick|writes-user-source|writes-identity\|(nick|source)')
 
     # ---------------------------------------------------------------- R15.3
     r3 = cx.rule('R15.3', 'announcement', floor=2, kind='emission')
